@@ -551,6 +551,9 @@ class WrapperAnalysis:
                     how = ev.how if ev.kind == 'mutate' else '='
                     self.nmut += 1
                     mutated[X].append((how, ev))
+                    if M is None and how in ('arg:move', 'arg:forward'):
+                        mutated[X].pop()
+                        continue      # std::move(x) only casts; whoever receives the rvalue is judged where it is called
                     if M is None:
                         st[X] = 'D'
                         dirty_by[X] = ev
@@ -925,6 +928,9 @@ def check_wrappers(ctx, tu, tag=''):
                     for X, s in o['states'].items():
                         if s == 'S':
                             continue
+                        if s == 'A' and m.shares_storage(r) and o['alias'].get(X) is not None and owners and \
+                                all(o['src'].get((X, M_)) == ('copyof', ('field', o['alias'][X], M_)) for M_, k_, i_ in owners):
+                            continue    # member-wise copy from a complete object whose storage is shared: view and owner were taken together
                         if X != this and X not in [k for k in o['states']]:
                             continue
                         d = o['dirty_by'].get(X)
@@ -1057,7 +1063,10 @@ def check_abstract(ctx, tu, tag=''):
                      'size, cbegin, cend, operator bool, operator T* and setPtr agree on the stored range ((pointer, count) or (begin, end)): '
                      'on every path of setPtr the extent equals the size argument')
     m = Model(tu)
-    se = mk_se(tu)
+    # inside AbstractArray its own members are followed too (a [[noreturn]] throwing helper, at() going through operator[]);
+    # setPtr is analysed as an entry
+    se = SymExec(tu, own=lambda f: f['q'].startswith('rkcommon::'),
+                 inline_stmt=lambda f: follow_c11(f) or (f.get('rec') == ABS and last(strip_targs(f['q'])) != 'setPtr'))
     n = 0
     for r in m.unrecognised:
         ctx.undecided(R4, short(r['type']) + tag, 'the members %s are neither (pointer, count) nor (begin pointer, end pointer with begin() '
